@@ -83,10 +83,22 @@ func buildMsgObject(m *abs.Msg) (*message.IKEMessage, error) {
 		}
 		lm.Payloads = full
 	case provParsedHeader:
-		h, err := message.ParseHeader(append([]byte{}, someProtectedDatagram...))
+		dg := append([]byte{}, someProtectedDatagram...)
+		echo := hashMsg(m)%2 == 0
+		if echo {
+			// ... and the reply's byte fields are views INTO that received datagram (echoed without copying)
+			dg = append(dg[:28:28], make([]byte, bridge.Size(m.Payloads)+64)...)
+		}
+		h, err := message.ParseHeader(dg)
 		if err != nil {
 			prov = provLiteral
 			break
+		}
+		if echo {
+			if pl, perr := bridge.BuildPayloadsIn(m.Payloads, dg[28:]); perr == nil {
+				lm.Payloads = pl
+				core.GlobalCount("msg_object_reply_fields_are_views_of_the_received_datagram")
+			}
 		}
 		set(h)
 		lm.IKEHeader = h
